@@ -110,34 +110,7 @@ def _owner(ctx, o):
     else:
         o.undecided(rs, rs.node, 'roots.setter', "WBS.roots setter is not `self.__root.children = value`")
     at = prog.func('task.Task._attach')
-    acfg = cfg_of(at)
-    wp = at.params[1]
-    ws = [(s, v) for s, t, v in facts.attr_stores(at, '_Task__wbs') if isinstance(t.value, ast.Name) and t.value.id == at.self_name]
-    if len(ws) == 1 and isinstance(ws[0][1], ast.Name) and ws[0][1].id == wp:
-        conds = acfg.conditions(acfg.node_of(ws[0][0]))
-        other = [(t, p) for t, p in conds if not (match(f"{wp} is None", t) and not p or match(f"{wp} is not None", t) and p)]
-        inverted = [(t, p) for t, p in other if match(f"{wp} is None", t) and p or match(f"{wp} is not None", t) and not p]
-        if inverted:
-            o.refute(at, ws[0][0], ws[0][0], f"Task._attach stores the owner only when `{wp}` is None (inverted early return): a task "
-                                             f"attached to a WBS never reports it as owner")
-        elif other:
-            o.undecided(at, ws[0][0], ws[0][0], "Task._attach stores the owner only under a condition the rule does not interpret")
-        else:
-            o.site(at, ws[0][0], "_attach: self.__wbs = wbs")
-    else:
-        o.refute(at, at.node, '_attach store', "Task._attach does not store its argument into self.__wbs: attached copies do not report the new WBS")
-    rec = [c for c in facts.calls_named(at, '_attach') if len(c.args) == 1 and isinstance(c.args[0], ast.Name) and c.args[0].id == wp]
-    ok = False
-    for c in rec:
-        fors = acfg.enclosing_fors(acfg.node_containing(c))
-        if fors and isinstance(fors[-1].target, ast.Name) and isinstance(c.func, ast.Attribute) and \
-                isinstance(c.func.value, ast.Name) and c.func.value.id == fors[-1].target.id and \
-                (match(f"{at.self_name}.children", fors[-1].iter) or match(f"{at.self_name}._Task__children", fors[-1].iter)):
-            ok = True
-            o.site(at, c, "_attach recurses into every child")
-    if not ok:
-        o.refute(at, at.node, '_attach recursion', "Task._attach does not recurse into self.children: descendants of the attached roots keep "
-                                                   "owner None")
+    _owner_setter(ctx, o, at, at.params[1], 0)
     eff = Effects(prog, ctx.typer, ctx.cg)
     reach = {f.qual for f in eff.reach([prog.func('task.Task.children.setter')])}
     if at.qual in reach:
@@ -145,6 +118,71 @@ def _owner(ctx, o):
     else:
         o.refute(prog.func('task.Task.children.setter'), None, 'children.setter !-> _attach',
                  "assigning children never reaches Task._attach: tasks attached under the new WBS's sentinel keep owner None")
+
+
+def _none_guard_only(conds, wp):
+    """split path conditions of an owner store / forward call into (inverted None tests, other conditions)"""
+    other = [(t, p) for t, p in conds if not (match(f"{wp} is None", t) and not p or match(f"{wp} is not None", t) and p)]
+    inverted = [(t, p) for t, p in other if match(f"{wp} is None", t) and p or match(f"{wp} is not None", t) and not p]
+    return inverted, [x for x in other if x not in inverted]
+
+
+def _owner_setter(ctx, o, fn, wp, depth):
+    """fn(self, wp) stores wp into self.__wbs (skipping at most `wp is None`) and does the same for every child - directly or
+    through one private helper it forwards (self, wp) to"""
+    prog = ctx.prog
+    acfg = cfg_of(fn)
+    sn = fn.self_name
+    ws = [(s, v) for s, t, v in facts.attr_stores(fn, '_Task__wbs') if isinstance(t.value, ast.Name) and t.value.id == sn]
+    if not ws and depth == 0:
+        # forwarded to a helper:  if wbs is not None: self.__set_owner(wbs)
+        fwd = []
+        for ci in ctx.cg.calls_in(fn):
+            n = ci.node
+            if ci.kind == 'call' and len(ci.targets) == 1 and ci.targets[0].cls == fn.cls and ci.targets[0] is not fn and \
+                    isinstance(n, ast.Call) and isinstance(n.func, ast.Attribute) and isinstance(n.func.value, ast.Name) and \
+                    n.func.value.id == sn and len(n.args) == 1 and isinstance(n.args[0], ast.Name) and n.args[0].id == wp and \
+                    len(ci.targets[0].params) == 2:
+                fwd.append((n, ci.targets[0]))
+        if len(fwd) == 1:
+            n, h = fwd[0]
+            cn = acfg.node_containing(n)
+            inverted, other = _none_guard_only(acfg.conditions(cn), wp)
+            if inverted:
+                o.refute(fn, n, n, f"{fn.name} forwards the owner only when `{wp}` is None (inverted test): attached tasks never report "
+                                   f"their WBS")
+            elif other or acfg.enclosing_loops(cn):
+                o.undecided(fn, n, n, f"{fn.name} forwards the owner only under a condition the rule does not interpret")
+            else:
+                _owner_setter(ctx, o, h, h.params[1], 1)
+            return
+    if len(ws) == 1 and isinstance(ws[0][1], ast.Name) and ws[0][1].id == wp:
+        inverted, other = _none_guard_only(acfg.conditions(acfg.node_of(ws[0][0])), wp)
+        if inverted:
+            o.refute(fn, ws[0][0], ws[0][0], f"Task.{fn.name} stores the owner only when `{wp}` is None (inverted early return): a task "
+                                             f"attached to a WBS never reports it as owner")
+        elif other:
+            o.undecided(fn, ws[0][0], ws[0][0], f"Task.{fn.name} stores the owner only under a condition the rule does not interpret")
+        else:
+            o.site(fn, ws[0][0], f"{fn.name}: self.__wbs = {wp}")
+    else:
+        o.refute(fn, fn.node, '_attach store', f"Task.{fn.name} does not store its argument into self.__wbs: attached copies do not report "
+                                               f"the new WBS")
+    rec = [c for c in walk_no_nested(fn.node) if isinstance(c, ast.Call) and isinstance(c.func, ast.Attribute)
+           and unmangle(c.func.attr) in (fn.name, '_attach') and len(c.args) == 1 and isinstance(c.args[0], ast.Name) and c.args[0].id == wp]
+    ok = False
+    for c in rec:
+        fors = acfg.enclosing_fors(acfg.node_containing(c))
+        if fors and isinstance(fors[-1].target, ast.Name) and isinstance(c.func.value, ast.Name) and \
+                c.func.value.id == fors[-1].target.id and \
+                (match(f"{sn}.children", fors[-1].iter) or match(f"{sn}._Task__children", fors[-1].iter)):
+            inverted, other = _none_guard_only(acfg.conditions(acfg.node_containing(c)), wp)
+            if not inverted and not other:
+                ok = True
+                o.site(fn, c, f"{fn.name} recurses into every child")
+    if not ok:
+        o.refute(fn, fn.node, '_attach recursion', f"Task.{fn.name} does not recurse into self.children: descendants of the attached roots "
+                                                   f"keep owner None")
 
 
 # ---------------------------------------------------------------------------------------------------------------------
